@@ -55,7 +55,13 @@ fn lex_ip_schemepart(source: &[char]) -> Option<usize> {
 }
 
 fn lex_login(source: &[char]) -> Option<usize> {
-    let hostport_start = if let Some(cred_end) = source.iter().position(|c| *c == '@') {
+    // Credentials cannot contain whitespace, so an `@` beyond it belongs to some later text.
+    let limit = source
+        .iter()
+        .position(|c| c.is_whitespace())
+        .unwrap_or(source.len());
+
+    let hostport_start = if let Some(cred_end) = source[..limit].iter().position(|c| *c == '@') {
         if let Some(pass_beg) = source[0..cred_end].iter().position(|c| *c == ':') {
             if !is_uchar_plus_string(&source[pass_beg + 1..cred_end]) {
                 return None;
